@@ -28,6 +28,9 @@ def main() -> int:
     mod.EXPLAIN = []
     try:
         ok = fn(**args)
+    except kf.HarnessLimit as e:
+        print(f"HARNESS-LIMIT: {e}")
+        return 3
     except BaseException as e:  # an escaping exception is a failing run
         print(f"REPRODUCED: {body['obligation']}({args}) raised {type(e).__name__}: {e}")
         print(traceback.format_exc()[-1200:])
